@@ -289,7 +289,7 @@ func modelCase(res *fw.Result, key string, prog *Program, pol gen.Policy, checkC
 	if !inRegion {
 		res.AddObs("out_of_region_rejected", 1)
 		res.AddClass("out-of-region")
-		_ = why
+		lastLayout = "model refused: " + why
 		return lib, mod, false
 	}
 	lib = runLib(prog, pol, false)
